@@ -26,7 +26,9 @@ Fixpoint next_key_rev (rk : list Z) : option (list Z) :=     (* rk = key reverse
   end.
 Definition next_key (k : list Z) : option (list Z) := option_map (@rev Z) (next_key_rev (rev k)).
 
-Definition range_cap : Z := 4096.       (* the harness state answers at most this many keys per request *)
+Definition range_cap : Z := 10241.       (* the harness state answers at most this many keys per request; also the cap of the model of the
+                                            read_or_fallback loop (the Rust loop is uncapped): a result of more than 5120 values cannot be
+                                            written to the 10240-word memory, so the VM op fails either way *)
 
 Fixpoint state_range (n : nat) (m : kv) (k : list Z) : list (list Z) :=
   match n with
